@@ -534,18 +534,23 @@ func ruleJS(c *Ctx) {
 		if !succ {
 			continue
 		}
+		if f.seen && !f.ok {
+			continue // an earlier success path of this form already fails the clause: keep that verdict
+		}
 		f.seen = true
 		// stores on the path
 		var typeStore ssa.Value
 		objTypeCleared, objAllocated, typeFromObj := false, false, false
 		var decoded []ssa.Value
 		var objVal ssa.Value // the fresh object installed in s.Object
+		var objLast ssa.Value // what s.Object holds when the path returns
 		for _, b := range p.Blocks {
 			for _, in := range b.Instrs {
 				if x, ok := in.(*ssa.Store); ok && strings.HasSuffix(accessPath(x.Addr), "->Object") {
 					if _, isAlloc := x.Val.(*ssa.Alloc); isAlloc {
 						objAllocated, objVal = true, x.Val
 					}
+					objLast = x.Val
 				}
 			}
 		}
@@ -593,8 +598,9 @@ func ruleJS(c *Ctx) {
 			f.ok, f.why = isS && s == "union" && okD, "for a JSON array Type is not set to \"union\" with the branches decoded into Union"
 		case "object":
 			okD := len(decoded) == 1 && isObj(stripIface(decoded[0]))
-			f.ok = objAllocated && okD && typeFromObj && objTypeCleared
-			f.why = fmt.Sprintf("for a JSON object: fresh object %v, decoded into it %v, Type hoisted from it %v, then cleared there %v", objAllocated, okD, typeFromObj, objTypeCleared)
+			kept := objLast != nil && objLast == objVal
+			f.ok = objAllocated && okD && typeFromObj && objTypeCleared && kept
+			f.why = fmt.Sprintf("for a JSON object: fresh object %v, decoded into it %v, Type hoisted from it %v, then cleared there %v, still installed at the return %v (an object form parsed without its object cannot be written back as an object, and a record without it builds no codec)", objAllocated, okD, typeFromObj, objTypeCleared, kept)
 		default:
 			f.ok, f.why = false, "a token that is neither string, array nor object is accepted without error"
 		}
